@@ -40,10 +40,40 @@ struct Planted {
     resized: usize,
     flipped: usize,
     staging: usize,
+    /// index of the workload content at whose hash path a file with *other* bytes was planted
+    stale: Option<usize>,
 }
 
-fn plant(d: &mut Disk, rng: &mut Rng, referenced: &BTreeMap<[u8; 32], (u32, u64)>, verify: bool) -> Planted {
+fn plant(d: &mut Disk, rng: &mut Rng, referenced: &BTreeMap<[u8; 32], (u32, u64)>, verify: bool, unreferenced: &[(usize, [u8; 32], Arc<Vec<u8>>)]) -> Planted {
     let mut p = Planted::default();
+    // a stale file at the path of a content the workload knows but no key references (what a lost
+    // write-back leaves behind a durable rename): wrong bytes under a well-formed name. It is an
+    // orphan for the scan; committing that content later must put the right bytes there (C18).
+    if !unreferenced.is_empty() && rng.chance(1, 2) {
+        let (c, h, data) = rng.pick(unreferenced).clone();
+        let bytes = match rng.below(4) {
+            0 => Vec::new(),
+            1 => data[..data.len() / 2].to_vec(),
+            2 => {
+                let mut b = (*data).clone();
+                b.push(0x5a);
+                b
+            }
+            _ => {
+                let mut b = (*data).clone();
+                if b.is_empty() {
+                    b.push(1);
+                } else {
+                    let pos = rng.below(b.len() as u64) as usize;
+                    b[pos] ^= 0x01;
+                }
+                b
+            }
+        };
+        put_file(d, &format!("db/cas/{}", decode::cas_rel_path(&h)), bytes);
+        p.orphans += 1;
+        p.stale = Some(c);
+    }
     // well-formed names of arbitrary hashes: every byte position at an extreme value in turn, plus random
     let n_orph = rng.below(4);
     for _ in 0..n_orph {
@@ -222,7 +252,12 @@ fn one_image<K: SimKey>(case: &Case, disk: &Disk, allowed: &[BTreeMap<K, usize>]
 
     // plant garbage on the recovered (post-recovery) directory: recovery has already checkpointed
     let mut img = recovered_disk.clone();
-    let planted = plant(&mut img, &mut rng, &referenced, verify);
+    let unreferenced: Vec<(usize, [u8; 32], Arc<Vec<u8>>)> = (0..w0.contents.len())
+        .filter(|&c| !referenced.contains_key(&w0.hashes[c]) && w0.contents[c].len() <= 200_000)
+        .map(|c| (c, w0.hashes[c], w0.contents[c].clone()))
+        .collect();
+    let planted = plant(&mut img, &mut rng, &referenced, verify, &unreferenced);
+    *out.site_counts.entry("planted:stale-bytes-at-known-hash-path".into()).or_insert(0) += planted.stale.is_some() as u64;
     *out.site_counts.entry("planted:orphans".into()).or_insert(0) += planted.orphans as u64;
     *out.site_counts.entry("planted:ill-formed-names".into()).or_insert(0) += planted.ill_formed as u64;
     *out.site_counts.entry("planted:shallow-stray".into()).or_insert(0) += planted.shallow as u64;
@@ -264,6 +299,34 @@ fn one_image<K: SimKey>(case: &Case, disk: &Disk, allowed: &[BTreeMap<K, usize>]
             mix(scan.orphaned.len() as u64, scan.invalid.len() as u64),
             mix(mix(scan.missing.len() as u64, scan.corrupted.len() as u64), mix(scan.staging.len() as u64, scan.total_blobs as u64)),
         ));
+        // ---- instead of a clean-up: commit the content whose path holds stale bytes --------------
+        if let Some(c) = planted.stale {
+            // (only when no referenced blob was damaged: the restart below reads every key)
+            if planted.deleted + planted.resized + planted.flipped == 0 && rng.chance(2, 3) {
+                *out.site_counts.entry("probe:commit-over-stale-path".into()).or_insert(0) += 1;
+                let k = rng.below(w.keys.len() as u64) as usize;
+                let chunks = crate::gen::gen_chunks(&mut rng, w.contents[c].len());
+                let st = w.stats.take();
+                interpose::enter(|| drop(st));
+                let own = |mut f: Failure| {
+                    f.props = vec!["C18".into()];
+                    f.class = format!("stale-path:{}", f.class);
+                    f.message = format!("{tag}: a file with other bytes sat at the path of content {c}'s hash before it was committed: {}", f.message);
+                    f
+                };
+                w.step_checked(0, &crate::gen::Op::Put { k, c, chunks, abort: false }).map_err(own)?;
+                w.step_checked(0, &crate::gen::Op::Get { k }).map_err(own)?;
+                let path = format!("db/cas/{}", decode::cas_rel_path(&w.hashes[c]));
+                let on_disk = with_sim(|s| s.disk.bytes(&path).map(|b| b.to_vec()));
+                if on_disk.as_deref() != Some(w.contents[c].as_slice()) {
+                    return Err(fail(&["C18"], "stale-path:file-bytes", 0, format!("{tag}: after committing content {c} the file at the path derived from its hash holds {:?} bytes, not the {} committed", on_disk.map(|b| b.len()), w.contents[c].len())));
+                }
+                // and it stays so across a restart
+                w.step_checked(0, &crate::gen::Op::Reopen).map_err(own)?;
+                w.step_checked(0, &crate::gen::Op::Get { k }).map_err(own)?;
+                return Ok(());
+            }
+        }
         // ---- clean-up ---------------------------------------------------------------------------
         let before = with_sim(|s| crate::exec::disk_image(&s.disk));
         let st = w.stats.take().expect("stats kept");
